@@ -54,8 +54,8 @@ VARIABLES
 vars == <<pc, ipOf, entry, reg, opened, cheld, wheld, inH, hj, cl, resp, perIP, concurrency, open, wbusy>>
 
 PCs == {"new", "arrived", "accepted", "overlimit", "rej429", "ipRejected", "opened", "full", "rej503",
-        "closed503", "queued", "acquired", "acqfail", "serving", "exitA", "releasing", "closing", "closedW",
-        "closingSC", "closedSC", "done"}
+        "closed503", "queued", "acquired", "acqfail", "serving", "exitA", "exitB", "exitSC", "releasing", "closing",
+        "closedW", "closingSC", "closedSC", "done"}
 
 TypeOK ==
   /\ pc \in [Conns -> PCs] /\ ipOf \in [Conns -> IPs \cup {NoIP}] /\ entry \in [Conns -> {"serve", "sc"}]
@@ -134,13 +134,21 @@ AfterClose(p) == CASE p = "rej503" -> "closed503" [] p = "closing" -> "closedW" 
    the Close of the underlying connection reports an error (a TLS peer that vanished without
    close_notify, a failing net.Conn): the connection is gone all the same, and Read / Write errors
    only end the serving of the connection (OpenDec) like a client close does. *)
+\* After serving, the connection is closed by the serving goroutine unless it was handed over to a hijack
+\* handler.  A requested hijack does not come about when writing the response fails: the goroutine is never
+\* started (hj still "pending") and the connection is closed like any other.
 RawCloseMain(c) ==
-  /\ cl[c] = "open" /\ pc[c] \in {"rej429", "rej503", "closing", "closingSC"}
+  /\ cl[c] = "open" /\ pc[c] \in {"rej429", "rej503", "exitB", "exitSC"}
   /\ pc[c] = "rej429" => resp[c] = 429
   /\ pc[c] = "rej503" => resp[c] = 503
+  /\ pc[c] \in {"exitB", "exitSC"} => hj[c] \in {"none", "pending"}
   /\ cl' = [cl EXCEPT ![c] = "closed"]
-  /\ pc' = [pc EXCEPT ![c] = IF @ = "rej429" THEN "ipRejected" ELSE IF reg[c] THEN @ ELSE AfterClose(@)]
-  /\ UNCHANGED <<ipOf, entry, reg, opened, cheld, wheld, inH, hj, resp, perIP, concurrency, open, wbusy>>
+  /\ hj' = [hj EXCEPT ![c] = IF pc[c] \in {"exitB", "exitSC"} THEN "none" ELSE @]
+  /\ pc' = [pc EXCEPT ![c] = CASE @ = "rej429" -> "ipRejected"
+                                [] @ = "rej503" -> IF reg[c] THEN @ ELSE "closed503"
+                                [] @ = "exitB" -> IF reg[c] THEN "closing" ELSE "closedW"
+                                [] @ = "exitSC" -> IF reg[c] THEN "closingSC" ELSE "closedSC"]
+  /\ UNCHANGED <<ipOf, entry, reg, opened, cheld, wheld, inH, resp, perIP, concurrency, open, wbusy>>
 
 UnregisterMain(c) ==
   /\ cl[c] = "closed" /\ pc[c] \in {"rej503", "closing", "closingSC"} /\ DoUnregister(c)
@@ -233,21 +241,21 @@ HandlerExit(c, hijack) ==
 OpenDec(c) ==
   /\ pc[c] = "serving" /\ ~inH[c]
   /\ open' = open - 1 /\ opened' = [opened EXCEPT ![c] = FALSE]
-  /\ pc' = [pc EXCEPT ![c] = IF entry[c] = "serve" THEN "exitA"
-                            ELSE IF hj[c] = "none" THEN "closingSC" ELSE "closedSC"]
+  /\ pc' = [pc EXCEPT ![c] = IF entry[c] = "serve" THEN "exitA" ELSE "exitSC"]
   /\ UNCHANGED <<ipOf, entry, reg, cheld, wheld, inH, hj, cl, resp, perIP, concurrency, wbusy>>
 
 \* Serve path: serveConnCleanup releases the concurrency unit, then the worker closes / hands over
 ConcDecS(c) ==
   /\ pc[c] = "exitA"
   /\ concurrency' = concurrency - 1 /\ cheld' = [cheld EXCEPT ![c] = "no"]
-  /\ pc' = [pc EXCEPT ![c] = IF hj[c] = "none" THEN "closing" ELSE "closedW"]
+  /\ pc' = [pc EXCEPT ![c] = "exitB"]
   /\ UNCHANGED <<ipOf, entry, reg, opened, wheld, inH, hj, cl, resp, perIP, open, wbusy>>
 
 \* workerFunc after WorkerFunc returned: not hijacked -> c.Close() (RawCloseMain, UnregisterMain);
 \* then the final ConnState is reported
-WorkerDone(c) ==
-  /\ pc[c] = "closedW"
+\* (hijacked: the serve loop returned errHijacked, the connection is in the hijack goroutine's hands)
+WorkerDone(c, hijacked) ==
+  /\ IF hijacked THEN pc[c] = "exitB" /\ hj[c] # "none" ELSE pc[c] = "closedW"
   /\ pc' = [pc EXCEPT ![c] = "releasing"]
   /\ UNCHANGED <<ipOf, entry, reg, opened, cheld, wheld, inH, hj, cl, resp, perIP, concurrency, open, wbusy>>
 
@@ -260,7 +268,7 @@ WorkerRelease(c) ==
 
 \* ServeConn returns: deferred releaseConcurrency
 ConcDecSC(c) ==
-  /\ pc[c] = "closedSC"
+  /\ pc[c] = "closedSC" \/ (pc[c] = "exitSC" /\ hj[c] # "none")
   /\ concurrency' = concurrency - 1 /\ cheld' = [cheld EXCEPT ![c] = "no"]
   /\ pc' = [pc EXCEPT ![c] = "done"]
   /\ UNCHANGED <<ipOf, entry, reg, opened, wheld, inH, hj, cl, resp, perIP, open, wbusy>>
@@ -297,7 +305,7 @@ Next ==
      \/ OpenIncS(c) \/ Admit(c) \/ AdmitFail(c) \/ OpenDecFail(c) \/ ServeEnter(c)
      \/ TryAcquireOk(c) \/ TryAcquireFail(c) \/ ReleaseFailed(c) \/ OpenIncSC(c)
      \/ HandlerEnter(c) \/ HandlerExit(c, TRUE) \/ HandlerExit(c, FALSE)
-     \/ OpenDec(c) \/ ConcDecS(c) \/ WorkerDone(c) \/ WorkerRelease(c) \/ ConcDecSC(c)
+     \/ OpenDec(c) \/ ConcDecS(c) \/ WorkerDone(c, TRUE) \/ WorkerDone(c, FALSE) \/ WorkerRelease(c) \/ ConcDecSC(c)
      \/ HjEnter(c) \/ HjExit(c) \/ RawCloseHj(c) \/ UnregisterHj(c)
 
 Spec == Init /\ [][Next]_vars
